@@ -201,16 +201,27 @@ def shrink_candidates(w):
     if "switches" in sch:
         sw = sch["switches"]
         if sw:
-            for keep in (sw[: len(sw) // 2], sw[len(sw) // 2 :]):
-                if len(keep) < len(sw):
-                    c = copy.deepcopy(w)
-                    c["sched"]["switches"] = keep
-                    yield c
+            def with_sw(keep):
+                c = copy.deepcopy(w)
+                c["sched"]["switches"] = keep
+                return c
+
+            # 1. shortest prefix of the switch list (what happens after the failure point is irrelevant)
+            k = 0
+            while k < len(sw):
+                yield with_sw(sw[:k])
+                k = 1 if k == 0 else k * 2
+            if len(sw) > 2:
+                yield with_sw(sw[: (3 * len(sw)) // 4])
+            # 2. drop chunks (halves, quarters, eighths), then single switches
+            for parts in (2, 4, 8):
+                if len(sw) >= parts * 2:
+                    size = len(sw) // parts
+                    for j in range(parts):
+                        yield with_sw(sw[: j * size] + sw[(j + 1) * size :])
             if len(sw) <= 24:
                 for i in range(len(sw)):
-                    c = copy.deepcopy(w)
-                    c["sched"]["switches"] = sw[:i] + sw[i + 1 :]
-                    yield c
+                    yield with_sw(sw[:i] + sw[i + 1 :])
     for i, m in enumerate(w["members"]):
         for cand in shrink.candidates_a(m):
             c = copy.deepcopy(w)
